@@ -189,9 +189,20 @@ def native_fixed_step(inputs):
     return {"steps": steps}
 
 
+SKIPPED = "skipped"      # not played (the driver had died too often before): neither agreement nor disagreement
+
+
 def compare_fixed_step(w, res):
     """Compare a path witness' prediction with the native result. -> None when equal, else a description."""
     r = res["results"]
+    if res.get("skipped"):
+        return SKIPPED
+    if res.get("crashed"):
+        # the native process aborted or never returned somewhere in this scenario: agrees with a path that ends in a panic
+        # (unbounded recursion is reported as one), disagrees with a path that returns
+        if w["predicted"].get("panic") is not None:
+            return None
+        return "native process aborted or did not return (%s) but the symbolic path returns" % r[0].get("abort", "")[:200]
     if "error" in r[0] or "panic" in r[0]:
         return "native context creation failed: %s" % (r[0],)
     ev = r[2]
@@ -230,10 +241,15 @@ def validate_witnesses(check, name, witnesses, to_scenario=native_fixed_step, co
     scs = [to_scenario(w["inputs"]) for w in witnesses]
     res = run_replay_parallel(scs)
     bad = []
+    skipped = 0
     for w, r in zip(witnesses, res):
         d = compare(w, r)
+        if d == SKIPPED or (r.get("skipped") and d is not None):
+            skipped += 1
+            continue
         if d is not None:
             bad.append((w, d))
+    witnesses = witnesses[:len(witnesses) - skipped] if skipped else witnesses
     check.stats["traces_validated"] += len(witnesses) - len(bad)
     for w in witnesses[:3]:
         check.sample(dict(obligation=name, path_witness=w["inputs"], predicted=w["predicted"]))
